@@ -348,7 +348,8 @@ def gen_world(
             ]
             if var["unit"] == "eternity" or not same_unit:
                 continue
-            j = pick(rng, same_unit)
+            # half of the time the variable reads *itself* one unit earlier
+            j = i if chance(rng, 0.5) else pick(rng, same_unit)
             g = ExprGen(rng, world, i, discipline)
             leaf = g.read(target_index=j, earlier_only=True)
             s = pick(rng, sorted(var["formulas"]))
